@@ -190,3 +190,72 @@ Example variantF_codes :
   /\ variantF (mk [false; false; false] false) = 0
   /\ scn_trace inst_stream_only FDevTty false = [(1, [3]); (10, [3]); (10, [4]); (1, [4])].
 Proof. vm_compute. repeat split; reflexivity. Qed.
+
+(** ** 7. No hooks, over ALL schedules: nothing is ever handed over *)
+
+Definition handed_nothing (s : qstate) : Prop :=
+  (forall t, wrapper_free (t_pc (th (qs s) t)) = true)
+  /\ (forall p, started (qs s) p = true -> cur (qs s) p = LT).
+
+Lemma applyQ_nohooks_frame qc s t a s1 :
+  applyQ qc s t a = Some s1 ->
+  match a with ASwap => False | AStart _ LM => False | _ => True end ->
+  (forall p, started (qs s) p = true -> cur (qs s) p = LT) ->
+  th (qs s1) = th (qs s) /\ (forall p, started (qs s1) p = true -> cur (qs s1) p = LT).
+Proof.
+  unfold applyQ, apply. intros E A K.
+  destruct a; try contradiction;
+    repeat match type of E with
+           | context [if ?b then _ else _] => destruct b eqn:?
+           | context [match ?y with _ => _ end] => destruct y eqn:?
+           end;
+    cbn in E; try discriminate; try contradiction; inversion E; subst; cbn; split; auto.
+  all: intros p; unfold upd; destruct (Nat.eqb p c); auto.
+  all: destruct h; [reflexivity|contradiction].
+Qed.
+
+Lemma stepF_nohooks_inv pol qc s i s' :
+  stepF false pol qc s i = Some s' -> handed_nothing s -> handed_nothing s'.
+Proof.
+  unfold stepF. intros E [W K]. destruct i as [t|p f b].
+  - destruct (Nat.eqb t (term_tid (q_base qc))) eqn:T.
+    + unfold step in E. rewrite T in E.
+      destruct (reqs (qs s)); cbn in E; [discriminate|]. inversion E; subst. split; assumption.
+    + destruct (negb (started (qs s) (proc (q_base qc) t))); [discriminate|].
+      destruct (nextF false pol (single (q_base qc)) (cur (qs s) (proc (q_base qc) t))
+                      (conf s (proc (q_base qc) t)) (hd_error (reps (qs s))) (th (qs s) t))
+        as [[[a x'] ev]|] eqn:NX; [|discriminate].
+      destruct (applyQ qc s t a) as [s1|] eqn:AP; [|discriminate].
+      inversion E; subst; clear E.
+      destruct (nextF_nohooks_wrapper_free _ _ _ _ _ _ _ _ _ (W t) NX) as [WX AX].
+      destruct (applyQ_nohooks_frame _ _ _ _ _ AP AX K) as [TH K1].
+      split; cbn.
+      * intro u. rewrite TH. unfold upd. destruct (Nat.eqb u t); auto.
+      * exact K1.
+  - destruct (started (qs s) p); [|discriminate]. inversion E; subst. split; assumption.
+Qed.
+
+Lemma handed_nothing_init prog q0 : handed_nothing (initQ prog q0).
+Proof.
+  split; cbn.
+  - intro t. reflexivity.
+  - intros p H. now rewrite H.
+Qed.
+
+(** no terminal found (no hooks), over ALL schedules: no thread ever executes the start
+    wrapper, the lock of no running process is ever the shared one *)
+Lemma nohooks_handed_nothing pol qc prog q0 s :
+  reachable_items (stepF false pol qc) (initQ prog q0) s -> handed_nothing s.
+Proof.
+  induction 1 as [|s i s' R IH E]; [apply handed_nothing_init|].
+  eapply stepF_nohooks_inv; eauto.
+Qed.
+
+Lemma none_found_handed_nothing fc prog q0 s :
+  found_tty (f_found fc) = false ->
+  reachable_items (stepFound inst_code fc) (initQ prog q0) s ->
+  (forall t, wrapper_free (t_pc (th (qs s) t)) = true)
+  /\ (forall p, started (qs s) p = true -> cur (qs s) p = LT).
+Proof.
+  unfold stepFound, inst_code. intros F R. rewrite F in R. exact (nohooks_handed_nothing _ _ _ _ _ R).
+Qed.
